@@ -19,23 +19,24 @@ LEVEL_TEXT = ("Theorems in coq/Props/C17.v. (1) memstore and cidlink.Memory, mod
               "(C17_refines, C17_distinct_keys_never_alias); later writes to the slice handed to put never reach the store "
               "(C17_insulated). (2) fsstore over a POSIX file-system model (filepath.Join/Clean on components, ENOENT/ENOTDIR/"
               "EISDIR/ENAMETOOLONG/EINVAL, os.Rename's Lstat, mkdir-on-ENOENT, staging in .temp): when the escaping function is "
-              "applied and has the shape of base32, pathForKey is injective (C17_fs_injective), every system call of every "
+              "applied (base32: shape proved, C17_b32_shape), pathForKey is injective (C17_fs_injective), every system call of every "
               "operation of every history stays strictly inside the base directory with no '..' (C17_fs_contained), and the "
-              "store refines the same finite map for all storable keys (C17_refines_fs). The sharding functions are the "
+              "store refines the same finite map for all storable keys (C17_refines_fs, C17_refines_fs_repaired). The sharding functions are the "
               "definitions gotrans regenerates from sharding.go on every run; they are proved total (C17_shard_total). "
               "(3) The code as it stands never applies escapingFunc and treats commit(\"\") as abort-with-success: the faithful "
               "model REFUTES containment, injectivity and refinement (C17_*_refuted, by computation), and the same inputs "
               "fail on the real code (KNOWN-FINDING lines). No bound on history length or key size in the theorems.")
 LEVEL_NOTE = ("cidlink.Memory keys by multihash by documented design: its specification is keyed by the projection cid_hash, "
               "this is not counted as aliasing. The fs refinement covers keys whose escaped form fits NAME_MAX (255): longer "
-              "keys make Put fail with ENAMETOOLONG (modelled, observed; an error, not a wrong answer). Injectivity of the "
-              "escaping function is a hypothesis (esc_ok); for base32 the alphabet and non-emptiness are proved. The model's "
+              "keys make Put fail with ENAMETOOLONG (modelled, observed; an error, not a wrong answer). The shape of the escaping "
+              "function (esc_ok: injective on byte strings, [A-Z2-7], non-empty) is PROVED for base32 (C17_b32_shape), so "
+              "C17_refines_fs_repaired has no hypothesis about it; for a custom escaping function it is a premise. The model's "
               "base directory is an absolute clean path. Trusted: Coq kernel, extraction, gotrans, harness, the hand-written "
               "model of package os / the kernel's path resolution (tied by the differential run on ~50 hostile key shapes).")
 TRUSTED = ["POSIX path resolution and package os (OpenFile O_EXCL, Rename = Lstat + renameat with EEXIST on directories, Mkdir, Remove, "
            "NUL refused with EINVAL, NAME_MAX 255): hand-modelled in coq/Store/FsStore.v sys_exec/resolve; tied by correspondence only",
            "filepath.Join/Clean for an absolute clean base: modelled on components (join_clean); tied by correspondence",
-           "the escaping function is injective (hypothesis esc_ok of the fs theorems; base32's alphabet/non-emptiness are proved)",
+           "a CUSTOM escaping function has the shape esc_ok (premise of the general fs theorems; for the default base32 it is proved)",
            "go-cid Cid.Hash() (multihash projection used by cidlink.Memory): modelled by cid_hash over Codec/Cid.v uvarint; tied by correspondence on real CIDs",
            "Go strings are shorter than 2^63 bytes (key_len_ok); fewer than 2^254 staging names are drawn by the model (C17_refines_fs)"]
 RULE = ("histories of 10-45 operations (new slice, overwrite slice, put, put-stream, put-vec, get, get-stream, peek, has) over 2-7 keys "
